@@ -45,9 +45,7 @@ THEOREMS = ['C07_plane_intersection_on_both', 'C07_plane_intersection_direction'
             'C07_hex_adjacency_geometry', 'C07_hex_base_vectors',
             'C07_base_vector_carries_opposite_plane',
             'C07_regular_hexagon_in_family', 'C07_domain_check_spec',
-            'C07_domain_check_guarded',
-            'C07_six_planes_trivial_range_refuted',
-            'C07_axial_range_without_vector_accepted', 'C07_lattice_vector']
+            'C07_domain_check_error', 'C07_lattice_vector']
 TRUSTED = [
     'hand-written model coq/C07/Model.v (modelled, tied by execution only)',
     'binary64 evaluation: the theorems are over R; the model is run at '
@@ -566,13 +564,10 @@ def domain_deck(nvec, bounds, n_el):
     return text
 
 
-def finding_class(conv, meta):
-    '''Narrow classes of findings/C07.txt.'''
-    if (conv.exc == 'LatticeError'
-            and 'Problem of domain definition' in conv.msg
-            and not meta['caps']
-            and any(lo == hi for lo, hi in meta['ranges'][:2])):
-        return 'six_planes_trivial_range'
+def finding_class(_conv, _meta):
+    """Narrow classes of findings/C07.txt: none is open (the class
+    six_planes_trivial_range of the previous round was repaired by /repo
+    commit 9b5a8f0)."""
     return None
 
 
@@ -604,16 +599,17 @@ def run(res, tier, seed, proofs_ok):
                 'non-trivial = every case (distinct by surfaces)')
 
     _T0[0] = time.time()
-    # ---------------- known-finding witnesses ----------------
+    # ---------------- corpus ----------------
+    # witness of the repaired finding six_planes_trivial_range: one row of
+    # hexagons, six planes; must convert
     conv = convert_watchdog(WITNESS_TRIVIAL_RANGE, 15.0)
-    meta0 = {'caps': False, 'ranges': [(-1, 1), (0, 0), (0, 0)]}
-    if not conv.ok and finding_class(conv, meta0):
+    res.seen(WITNESS_TRIVIAL_RANGE)
+    if not conv.ok:
         res.violation('impl-violation',
                       'six-plane LAT=2 cell with FILL=-1:1 0:0 0:0 rejected: '
                       f'{conv.exc}: {conv.msg[:120]}',
                       {'input': {'deck': WITNESS_TRIVIAL_RANGE}},
-                      cls=finding_class(conv, meta0), found_input=True)
-
+                      found_input=True)
     _stage('witnesses')
     # ---------------- function-level streams ----------------
     stream = []          # (surfaces, hexa or None, listing or None, fault)
